@@ -89,6 +89,12 @@ type ProdFocus struct {
 	// virtual instant (each on its own goroutine), so that many producers are parked on a
 	// full buffer and are woken together.
 	Burst bool
+	// Pipeline fills the produce pipeline of one partition during a one-way stall: one
+	// acknowledged record first (the sink has seen its first response), then a stall, then
+	// 8-24 single-record Produce calls a millisecond apart (one batch and one request each,
+	// no linger), so that as many requests as the client allows are appended by the broker
+	// without any of them being answered before every connection dies and all are resent.
+	Pipeline bool
 }
 
 func GenProdPlan(t *rapid.T, f ProdFocus) ProdPlan {
@@ -138,7 +144,7 @@ func GenProdPlan(t *rapid.T, f ProdFocus) ProdPlan {
 	ns := rapid.IntRange(1, maxSteps).Draw(t, "nsteps")
 	kinds := []string{"produce", "produce", "produce", "produce", "flush", "sleep", "cancelctx"}
 	if !f.NoFaults {
-		kinds = append(kinds, "netfault", "netfault", "errcode", "errcode", "appenderr", "move", "killall", "abort")
+		kinds = append(kinds, "netfault", "netfault", "errcode", "errcode", "appenderr", "move", "killall", "abort", "stall")
 		if !f.NoPurge {
 			kinds = append(kinds, "purge", "deltopic", "mktopic")
 		}
@@ -206,12 +212,14 @@ func GenProdPlan(t *rapid.T, f ProdFocus) ProdPlan {
 			s.Node = rapid.IntRange(0, p.Brokers-1).Draw(t, "node")
 		case "sleep":
 			s.Dur = rapid.SampledFrom([]time.Duration{time.Second, 10 * time.Second, 2 * time.Minute}).Draw(t, "dur")
+		case "stall":
+			s.Dur = rapid.SampledFrom([]time.Duration{5 * time.Millisecond, 50 * time.Millisecond, 2 * time.Second}).Draw(t, "dur")
 		}
 		if fatalPlan {
 			switch {
 			case s.Kind == "netfault" && s.Act != bubble.KillBefore:
 				s.Act = bubble.KillBefore
-			case s.Kind == "killall" || s.Kind == "appenderr":
+			case s.Kind == "killall" || s.Kind == "appenderr" || s.Kind == "stall":
 				s.Kind = "sleep"
 				s.Dur = time.Second
 			}
@@ -219,6 +227,45 @@ func GenProdPlan(t *rapid.T, f ProdFocus) ProdPlan {
 		p.Steps = append(p.Steps, s)
 	}
 	p.Final = rapid.SampledFrom([]string{"flushclose", "flushclose", "close", "closeblocked"}).Draw(t, "final")
+	if f.Pipeline {
+		c.Linger, c.Manual, c.MaxBufRecs, c.MaxBufBytes, c.BatchMax, c.AllowCancel = 0, false, 0, 0, 0, false
+		c.Retries, c.DeliveryTO = 0, 0
+		c.Inflight = rapid.SampledFrom([]int{0, 0, 1, 4}).Draw(t, "pipe-inflight")
+		part := int32(rapid.IntRange(0, int(p.Parts[0])-1).Draw(t, "pipe-partition"))
+		one := func(d time.Duration, mode string) ProdStep {
+			return ProdStep{Kind: "produce", Mode: mode, N: 1, Topic: 0, Partition: part, ValLen: 8, Delay: d}
+		}
+		var steps []ProdStep
+		k := rapid.IntRange(8, 24).Draw(t, "pipe-n")
+		if rapid.Bool().Draw(t, "pipe-fromstart") {
+			// from the very first request: every response is slow, so the batches queue up behind
+			// the first request and go out together the moment it is answered; the connections
+			// die before any of those is answered
+			c.BatchMax = 512
+			steps = append(steps, ProdStep{Kind: "slowkill", Dur: rapid.SampledFrom([]time.Duration{20 * time.Millisecond, 200 * time.Millisecond}).Draw(t, "pipe-slow")})
+			for i := 0; i < k; i++ {
+				st := one(rapid.SampledFrom([]time.Duration{0, time.Millisecond}).Draw(t, "pipe-gap"), "produce")
+				st.ValLen = 300 // two of these exceed the batch limit: one batch per record
+				steps = append(steps, st)
+			}
+			steps = append(steps, ProdStep{Kind: "sleep", Dur: time.Second}) // the final phase heals the network: let the fault play out first
+		} else {
+			steps = append(steps, one(0, "sync"))
+			steps = append(steps, ProdStep{Kind: "stall", Dur: rapid.SampledFrom([]time.Duration{50 * time.Millisecond, 2 * time.Second}).Draw(t, "pipe-stall"), Delay: rapid.SampledFrom([]time.Duration{0, 100 * time.Millisecond}).Draw(t, "pipe-stalldelay")})
+			for i := 0; i < k; i++ {
+				steps = append(steps, one(time.Millisecond, "produce"))
+			}
+		}
+		keep := rapid.IntRange(0, 6).Draw(t, "pipe-extra")
+		if keep > len(p.Steps) {
+			keep = len(p.Steps)
+		}
+		if fatalPlan {
+			keep = 0 // a plan with fatal codes must not contain a fault that leaves batches appended but unacknowledged
+		}
+		p.Steps = append(steps, p.Steps[:keep]...)
+		p.Final = "flushclose"
+	}
 	return p
 }
 
@@ -498,7 +545,7 @@ func RunProd(e *bubble.Env, p ProdPlan, extraOpts ...kgo.Opt) *ProdObs {
 		}
 		o.StepKinds = append(o.StepKinds, s.Kind)
 		switch s.Kind {
-		case "abort", "purge", "netfault", "killall", "errcode", "appenderr", "move", "deltopic", "cancelctx":
+		case "abort", "purge", "netfault", "killall", "errcode", "appenderr", "move", "deltopic", "cancelctx", "stall", "slowkill":
 			if cl.BufferedProduceRecords() > 0 {
 				o.InflightAtFailure = true
 			}
@@ -661,6 +708,48 @@ func RunProd(e *bubble.Env, p ProdPlan, extraOpts ...kgo.Opt) *ProdObs {
 			}})
 			o.mu.Lock()
 			o.FailurePaths[fmt.Sprintf("appended-but-code-%d", code)]++
+			o.mu.Unlock()
+		case "stall":
+			// a one-way stall: for Dur every request still reaches the broker and is handled, no
+			// response comes back (the client keeps pipelining up to its in-flight limits), then
+			// every connection dies; the steps that follow run during the stall
+			o.Log.Add("stall", 0, "", nil, int64(s.Dur), 0)
+			e.Net.SetMode(0, true)
+			d := s.Dur
+			e.Go(func() {
+				time.Sleep(d)
+				e.Net.KillAll()
+				e.Net.SetMode(0, false)
+			})
+			o.mu.Lock()
+			o.FailurePaths["stall-then-kill"]++
+			o.mu.Unlock()
+		case "slowkill":
+			// The next produce request is answered slowly (Dur), so that the batches produced
+			// meanwhile queue up behind it. The instant its response is handed to the client the
+			// network goes one-way (requests are still handled, responses are swallowed), so the
+			// whole pipeline the client sends next is appended without any of it being answered;
+			// after another Dur every connection dies and all of it is resent.
+			o.Log.Add("slowkill", 0, "", nil, int64(s.Dur), 0)
+			d := s.Dur
+			e.Net.AddRuleNext(0, bubble.DelayResponse, d)
+			var once sync.Once
+			e.Net.SetOnResp(func(ri *bubble.ReqInfo, _ []byte) {
+				if ri.Key != 0 {
+					return
+				}
+				once.Do(func() {
+					e.Net.SetMode(0, true)
+					e.Go(func() {
+						time.Sleep(d + d) // the slow response is delivered after d; the pipeline then has d
+						e.Net.SetOnResp(nil)
+						e.Net.KillAll()
+						e.Net.SetMode(0, false)
+					})
+				})
+			})
+			o.mu.Lock()
+			o.FailurePaths["slow-then-kill"]++
 			o.mu.Unlock()
 		case "killall":
 			o.Log.Add("killall", 0, "", nil, 0, 0)
@@ -880,7 +969,7 @@ func (p ProdPlan) Brief() string {
 			fmt.Fprintf(&b, " t=%d p=%d node=%d", s.Topic, s.Partition, s.Node)
 		case "purge", "deltopic", "mktopic":
 			fmt.Fprintf(&b, " t=%d", s.Topic)
-		case "sleep":
+		case "sleep", "stall", "slowkill":
 			fmt.Fprintf(&b, " %v", s.Dur)
 		}
 		b.WriteString("]")
